@@ -80,6 +80,10 @@ type leaseRun struct {
 	*exec
 	d        *dhcpRun
 	restarts int
+	// the MACs the session reported as captured when the history ended (what an application
+	// would save and re-apply; a capture flag the session lost on the way - the recorded C11
+	// finding - is not resurrected here)
+	capturedAtEnd []fb.MAC
 }
 
 func readLeaseFile() ([]byte, bool) {
@@ -116,13 +120,7 @@ func (l *leaseRun) restartFS(what string, files map[string][]byte) (map[binding]
 	// created, as it would at boot: the leases are then loaded for MACs that are already captured
 	var pre func(*world.World)
 	if l.restarts%2 == 1 {
-		macs := make([]fb.MAC, 0, len(l.d.capturedOp))
-		for m, c := range l.d.capturedOp {
-			if c {
-				macs = append(macs, m)
-			}
-		}
-		sort.Slice(macs, func(i, j int) bool { return string(macs[i][:]) < string(macs[j][:]) })
+		macs := l.capturedAtEnd
 		pre = func(w *world.World) {
 			for _, m := range macs {
 				w.S.Capture(world.HW(m))
@@ -205,6 +203,11 @@ func (l *leaseRun) checkDamaged(what, kind string, got, ref map[binding]bool) {
 				case r.cid == b.cid && r.mac == b.mac:
 					field = "ip-altered"
 				}
+			}
+			if kind == "truncated" && field != "unrelated-to-any-original-binding" {
+				// a cut can only shorten the last binding of the file; which of its fields the
+				// comparison blames depends on the neighbours, so it is one signature
+				field = "last-binding-cut-short"
 			}
 			l.violateSoft("C18.damaged", kind+":binding-not-in-original:"+field, fmt.Sprintf("%s: loaded binding %s is not in the undamaged file %v", what, b, sortedBindings(ref)))
 		}
@@ -291,6 +294,11 @@ func runLease(e *exec) {
 	})
 	if e.fatal {
 		return
+	}
+	for _, c := range l.d.cl {
+		if w.S.IsCaptured(world.HW(c.mac)) {
+			l.capturedAtEnd = append(l.capturedAtEnd, c.mac)
+		}
 	}
 	// ---- collect the history of disk mutations ----
 	fsops := simrt.FSOps()
